@@ -162,5 +162,9 @@ def run(ctx, rep):
     rep.check(len(news) == 2, "M3", "C09|M3|fresh-maps", cfg.where(fm), "both maps start empty (HashMap::new x2), found %d" % len(news))
     import common_g
     rep.floor("IN", "grammar actions feeding this rule", common_g.emit_inputs(ctx, rep, "C09"), 5)
+    import loopstate
+    loopstate.rule(ctx, rep, "C09", ['validation::check_methods'])
+    import pipeline
+    pipeline.rule(ctx, rep, "C09", ['check_methods'])
     rep.assumptions += ["TB-1 rustc MIR", "TB-4 tabulator", "TB-3 HashMap get/insert/entry semantics (the abstract predicates 'name seen' / 'code seen' are the map's own answers)"]
     rep.not_decided.append("u32 parsing of zero-padded / overflowing codes (std; wiring of transact_code is the grammar rule)")
